@@ -264,6 +264,7 @@ func execute(planAny any, cfg simrt.Config) *simkit.Outcome {
 		}
 		if r.c23 {
 			r.latePersist()
+			r.restoredSuffixRoles()
 		}
 		if r.c22 {
 			r.suffixReplay()
@@ -408,6 +409,48 @@ func (r *run) prefixChecks(f *craft.ClusterFSM, st *craft.VerifState, cur primar
 		r.checkRoles("restore", Op{}, st, st2, fmt.Sprintf("restored from the snapshot taken %s; %s", what, note))
 	}
 	return true
+}
+
+// restoredSuffixRoles (C23): a node that restarted from a snapshot (or a
+// follower that installed one) keeps applying the log. Every command applied
+// on such a node is held to the same role rules as on the reference, with
+// the cause tagged: an index that Restore rebuilt wrongly only shows when a
+// later cascade walks it. Up to three prefixes per run (the plan's snapshot
+// positions), so the cost stays linear in practice.
+func (r *run) restoredSuffixRoles() {
+	p := r.p
+	n := len(p.Log)
+	var ks []int
+	for _, rep := range p.Reps {
+		for _, e := range rep.Ev {
+			if e.K == "snap" && e.At < n && e.At < len(r.snap) && len(ks) < 3 {
+				ks = append(ks, e.At)
+			}
+		}
+	}
+	for _, k := range ks {
+		if r.stop || !r.good[k] {
+			continue
+		}
+		f := craft.NewClusterFSM(nopLog)
+		if !r.restore(f, r.snap[k], "restored-suffix node") {
+			return
+		}
+		st := f.VerifState()
+		for j := k; j < n; j++ {
+			op := p.Log[j]
+			resp, ok := r.apply(f, op, fmt.Sprintf("node restored at prefix %d", k))
+			if !ok {
+				return
+			}
+			after := f.VerifState()
+			r.out.Evals++
+			r.checkRoles(op.kind()+".on_node_restored_from_snapshot", op, st, after,
+				fmt.Sprintf("node restored from the snapshot taken after %d entries, after %s -> %s", k, descOp(op), respString(resp)))
+			st = after
+		}
+		simrt.Count("fault.restore_then_apply_suffix", 1)
+	}
 }
 
 // latePersist (C23): hashicorp/raft calls Snapshot() on the FSM goroutine and
